@@ -15,7 +15,7 @@ import (
 // C07 — the rate-limited issuer signs only authentic, untampered requests.
 type c07 struct{ base }
 
-func init() { core.Register(c07{base{"C07", "fault_enumeration", 48, 1200}}) }
+func init() { core.Register(c07{base{"C07", "fault_enumeration", 150, 3000}}) }
 
 func (c07) Describe() core.Description {
 	return core.Description{
